@@ -385,11 +385,7 @@ def fpToUBV(rm, fp, size):
     try:
         rounding_mode = rm.pydecimal_equivalent_rounding_mode()
         val = int(Decimal(fp.value).to_integral_value(rounding_mode))
-        assert val & ((1 << size) - 1) == val, (
-            f"Rounding produced values outside the BV range! rounding {fp.value} with rounding mode {rm} produced {val}"
-        )
-        if val < 0:
-            val = (1 << size) + val
+        # a rounded value outside [0, 2**size) has no specified result; wrap it like fpToSBV does instead of crashing
         return BVV(val, size)
 
     except (ValueError, OverflowError):
